@@ -28,6 +28,10 @@ import CookModel.Lemmas.MetaDiagsFront
   (The YAML text of the front matter is carried by the event as a slice of the input; decoding it
   is `serde_yaml`, outside the model: both entry points hand the same slice at the same offset to
   the same collector code, in the same initial state.)
+  * diagnostics: without front matter the analysis diagnostics about metadata (five kinds) are the
+    same in both reports (`C14_metadata_diagnostics_agree_partial`); for every input the three
+    kinds about `>>` values are (`C14_std_metadata_diagnostics_agree`); with front matter the
+    `config-*` kinds differ by design (the metadata-only parser stops after the front matter).
 -/
 namespace Cook
 variable {α : Type} [Arith α]
@@ -218,6 +222,19 @@ theorem C14_front_matter_split_same (cs : CharSpec) (ext : Ext) (input : List Ch
   obtain ⟨L, e, _⟩ := mfront_pullEvents (α := α) cs ext input fm h
   unfold metaOf at e
   rw [e]; rfl
+
+/-- (1, continued) After the split the full parser is the ordinary block loop, with
+    `old_style_metadata = false`, over the tokens of the cooklang part lexed at `cookOffset`,
+    started with the front-matter event in the queue.  (That `cookText`/`yamlText` are the input
+    slices at `cookOffset`/`yamlOffset` is `C04_frontmatter_offsets`, `C04_frontmatter_yaml_slice`.) -/
+theorem C14_full_parser_after_front_matter (cs : CharSpec) (ext : Ext) (input : List Char) (fm : FrontMatter)
+    (h : parseFrontmatter cs input = some fm) :
+    pullEvents (α := α) cs ext input =
+      (allBlocks ((lexFrom cs fm.cookOffset fm.cookText).length + 1) (lexFrom cs fm.cookOffset fm.cookText)).foldl
+        (fun acc b => runBlock cs ext false b acc.1 acc.2)
+        (#[.frontMatter (Text.fromStr fm.yamlText fm.yamlOffset)], none) := by
+  unfold pullEvents
+  simp only [h]
 
 /-- (2a) With front matter the full parser runs every block with `old_style_metadata = false`:
     besides the front-matter event, the only metadata-carrying events it emits are `>> [key]: value`
